@@ -54,8 +54,7 @@ def base(name):
     spec = common.spec_from(BASES[name])
     files, info = product.build_product(spec)
     prod = harness.Materialised(files, "memory").__enter__()
-    tree = harness.open_tree(prod.url, use_cache=False)
-    flat = harness.flatten(tree)
+    tree, flat = harness.reference_open(prod.url, use_cache=False)
     return spec, info, flat
 
 
